@@ -179,6 +179,8 @@ type Cli struct {
 	HSDone chan struct{}
 	HSErr  error
 	Local  *net.UDPAddr
+	// CertKey is the public key named in the certificate the client presents
+	CertKey keys.DHPublicKey
 }
 
 func NewCli(local *net.UDPAddr, cfg transport.ClientConfig) *Cli {
